@@ -209,7 +209,7 @@ func genEncCase(rt *rapid.T) encCase {
 
 func TestEncDecrypt(t *testing.T) {
 	sec := vk.Sec(t.Name())
-	vk.Check(t, 2500, 40000, func(rt *rapid.T) {
+	vk.Check(t, 6000, 60000, func(rt *rapid.T) {
 		c := genEncCase(rt)
 		settle(rt, sec, runEncDecrypt(c), vk.FP("encdec", c.Doc, c.Unwrap, c.UnwrapLen, c.KeyName, c.Chunks, c.EOFWith, c.FailAt))
 	})
@@ -300,7 +300,7 @@ var encCipherNames = []string{"", "AES-GCM", "CHACHA20-POLY1305", "aes-gcm", "AE
 
 func TestEncEncrypt(t *testing.T) {
 	sec := vk.Sec(t.Name())
-	vk.Check(t, 600, 10000, func(rt *rapid.T) {
+	vk.Check(t, 1200, 12000, func(rt *rapid.T) {
 		c := encEncCase{
 			Plain:     vk.Expand(rapid.Uint64().Draw(rt, "seed"), rapid.SampledFrom([]int{0, 1, 100, 65535, 65536, 65537, 131073}).Draw(rt, "plainLen")),
 			Alg:       rapid.SampledFrom(concat(encAlgNames[:7], encAlgNames[:7], encAlgNames)).Draw(rt, "alg"),
@@ -382,7 +382,7 @@ func TestEncJSON(t *testing.T) {
 		c := encJSONCase{Data: []byte(s), ID: i - 3}
 		settle(t, sec, runEncJSON(c), vk.FP("encjson", s))
 	}
-	vk.Check(t, 3000, 40000, func(rt *rapid.T) {
+	vk.Check(t, 8000, 80000, func(rt *rapid.T) {
 		var c encJSONCase
 		c.ID = rapid.IntRange(-3, 8).Draw(rt, "id")
 		switch rapid.IntRange(0, 3).Draw(rt, "kind") {
